@@ -291,3 +291,22 @@ Proof.
   { induction par2 as [|p l IH]; simpl; [reflexivity|]. rewrite (H p) by (left; reflexivity). apply IH. intros q Hq. apply H. right. exact Hq. }
   rewrite E. simpl. apply app_nil_r.
 Qed.
+
+(* ------------------------------------------------------------ one column per condition x basis function *)
+Lemma orthogonalize_length cols : length (orthogonalize cols) = length cols.
+Proof.
+  unfold orthogonalize.
+  assert (G : forall l d, length (fold_left (fun done x => done ++ [orth_col done x]) l d) = (length d + length l)%nat).
+  { induction l as [|x l IH]; intros d; cbn [fold_left length]; [lia|]. rewrite IH, app_length. simpl. lia. }
+  rewrite G. reflexivity.
+Qed.
+Lemma compute_regressor_length ft os mo hs fir evs : length (compute_regressor ft os mo hs fir evs) = length hs.
+Proof.
+  unfold compute_regressor. destruct fir; rewrite ?orthogonalize_length; unfold regressor_columns, conv_columns; rewrite !map_length; reflexivity.
+Qed.
+Lemma convolve_regressors_length ft os mo hs fir cids par :
+  length (convolve_regressors ft os mo hs fir cids par) = (length cids * length hs)%nat.
+Proof.
+  unfold convolve_regressors. induction cids as [|c l IH]; simpl; [reflexivity|].
+  rewrite app_length, IH, compute_regressor_length. reflexivity.
+Qed.
